@@ -60,8 +60,8 @@ fn size_strategy(max: u32) -> impl Strategy<Value = u32> {
 }
 
 pub fn layout_strategy() -> impl Strategy<Value = CfbLayout> {
-    (any::<bool>(), prop_oneof![1 => Just(0u64), 4 => any::<u64>()], prop_oneof![1 => Just(0u64), 3 => any::<u64>()], 0u8..6, 0u8..5, 0u8..6, prop_oneof![1 => Just(0u64), 2 => any::<u64>()], prop_oneof![3 => Just(0u16), 1 => 1u16..600]).prop_map(
-        |(v4, perm_seed, mini_perm_seed, free_sectors, free_mini, unused_dir_entries, dir_order_seed, trailing)| CfbLayout { v4, perm_seed, mini_perm_seed, free_sectors, free_mini, unused_dir_entries, dir_order_seed, trailing },
+    (any::<bool>(), prop_oneof![1 => Just(0u64), 4 => any::<u64>()], prop_oneof![1 => Just(0u64), 3 => any::<u64>()], 0u8..6, 0u8..5, 0u8..6, prop_oneof![1 => Just(0u64), 2 => any::<u64>()], prop_oneof![3 => Just(0u16), 1 => 1u16..600], prop_oneof![3 => Just(0u8), 1 => 1u8..9, 1 => Just(40u8)]).prop_map(
+        |(v4, perm_seed, mini_perm_seed, free_sectors, free_mini, unused_dir_entries, dir_order_seed, trailing, spare_fat)| CfbLayout { v4, perm_seed, mini_perm_seed, free_sectors, free_mini, unused_dir_entries, dir_order_seed, trailing, spare_fat },
     )
 }
 
